@@ -50,6 +50,7 @@ type Contract struct {
 	NamedLoops map[string]*LoopSpec
 	RangeNames map[string]string // source text of a ranged expression -> loop name (loopname directive)
 	Pure     bool
+	MathInts bool // int/int64 arithmetic treated as mathematical in this function (stated assumption)
 	AcqAssumes []*Clause // assumed at every lock acquisition of the function (stated environment assumption)
 	PureDef  *Clause // explicit definition of a pure function
 	Trusted  bool
@@ -342,6 +343,8 @@ func (p *Prog) loadContractFile(path string) error {
 			cur.NoInline = true
 		case line == "nosafety":
 			cur.NoSafety = true
+		case line == "math_ints":
+			cur.MathInts = true
 		case line == "per_return":
 			cur.PerReturn = true
 		case line == "decoder_frame":
